@@ -38,7 +38,8 @@ use crate::{
 
 #[derive(Clone, Debug)]
 enum Out {
-    Ok(usize),
+    /// number of output shares, and the (left,right) shares themselves
+    Ok(usize, Vec<(u128, u128)>),
     Duplicate,
     Err(String),
     Panic(String),
@@ -47,7 +48,7 @@ enum Out {
 impl Out {
     fn brief(&self) -> String {
         match self {
-            Out::Ok(n) => format!("ok[{n}]"),
+            Out::Ok(n, _) => format!("ok[{n}]"),
             Out::Duplicate => "DuplicateBytes".into(),
             Out::Err(e) => format!("err:{}", e.chars().take(60).collect::<String>()),
             Out::Panic(e) => format!("panic:{}", e.chars().take(60).collect::<String>()),
@@ -129,7 +130,10 @@ async fn body<const S: usize>(case: Case, bufs: [Vec<Vec<u8>>; 3], reg: Arc<KeyR
                 let params = HybridQueryParams { with_dp: 0, ..Default::default() };
                 let q = HybridQuery::<_, BA32, KeyRegistry<KeyPair>>::new(params, reg);
                 let out = match catch_fut(q.execute(ctx, size, BodyStream::from(body))).await {
-                    Ok(Ok(v)) => Out::Ok(v.len()),
+                    Ok(Ok(v)) => {
+                        use crate::{ff::U128Conversions, secret_sharing::replicated::ReplicatedSecretSharing};
+                        Out::Ok(v.len(), v.iter().map(|s| (s.left().as_u128(), s.right().as_u128())).collect())
+                    }
                     Ok(Err(Error::DuplicateBytes(_))) => Out::Duplicate,
                     Ok(Err(e)) => Out::Err(format!("{e:?}")),
                     Err(p) => Out::Panic(p),
@@ -225,7 +229,7 @@ fn judge(rec: &mut Recorder, case: &Case, bufs: &[Vec<Vec<u8>>; 3], out: &RunOut
                         json!({"w": witness(), "helper": h, "shard": s}),
                     );
                 }
-                if case.stop_after_dedup && !matches!(o, Out::Ok(_)) {
+                if case.stop_after_dedup && !matches!(o, Out::Ok(..)) {
                     ok = false;
                     rec.violation(
                         "a shard without duplicates did not get past the duplicate check",
@@ -380,9 +384,22 @@ fn verif_c11_full_query_x1() {
         judge(&mut rec, &case, &bufs, &out, idx, &dups);
         if dups.is_empty() {
             rec.eval();
-            let all_ok = out.outs.iter().all(|o| o.iter().all(|x| matches!(x, Out::Ok(256))));
+            let all_ok = out.outs.iter().all(|o| o.iter().all(|x| matches!(x, Out::Ok(256, _))));
             if all_ok {
                 rec.count("full_query_completed");
+                // ties the two entry points together: the real Query::execute (HPKE input, stream parsing, reshard by
+                // tag, built-in padding) must give the same histogram as the plaintext reference (C01's oracle)
+                if let [Out::Ok(_, a), Out::Ok(_, b), Out::Ok(_, c)] = &out.outs[0] {
+                    let want = wl::reference_histogram(&case.reports, 32);
+                    match wl::reconstruct3([a, b, c]) {
+                        Ok(h) if h == want => rec.count("full_query_histogram_equals_reference"),
+                        other => rec.violation(
+                            "Query::execute returned a histogram different from the plaintext reference",
+                            json!({"kind": "full_query_wrong_histogram"}),
+                            json!({"case": idx, "got": format!("{other:?}").chars().take(300).collect::<String>()}),
+                        ),
+                    }
+                }
             } else {
                 rec.violation(
                     "a query with pairwise distinct reports did not complete",
